@@ -546,10 +546,24 @@ def clause_e(ctx: Context, idx) -> None:
             squared = None
             p_name = None
             u_ok = None
+            import copy as _copy2
+
+            class _Side(ast.NodeTransformer):
+                """`a if side == "right" else b` -> the operand selected for the side under analysis"""
+
+                def visit_IfExp(self, n_):
+                    self.generic_visit(n_)
+                    t_ = n_.test
+                    if isinstance(t_, ast.Compare) and len(t_.ops) == 1 and isinstance(t_.ops[0], (ast.Eq, ast.NotEq)) and isinstance(t_.comparators[0], ast.Constant) \
+                            and t_.comparators[0].value in ("right", "left"):
+                        truth = (t_.comparators[0].value == side) == isinstance(t_.ops[0], ast.Eq)
+                        return n_.body if truth else n_.orelse
+                    return n_
+
             for s_ in prefix + arms[side]:
                 if not (isinstance(s_, ast.Assign) and len(s_.targets) == 1 and isinstance(s_.targets[0], ast.Name)):
                     continue
-                v = s_.value
+                v = _Side().visit(_copy2.deepcopy(s_.value))
                 if isinstance(v, ast.Call) and (dotted(v.func) or "").split(".")[-1] == "sqrtm" and v.args:
                     try:
                         squared = mo.WordEval(env).ev(v.args[0])
@@ -575,6 +589,19 @@ def clause_e(ctx: Context, idx) -> None:
                     env[s_.targets[0].id] = mo.WordEval(env).ev(v)
                 except mo.Untranslatable:
                     pass
+            if u_ok is None and p_name is not None:
+                # the unitary factor may be written directly in the return statement
+                for r_ in [x_ for x_ in f.node.body if isinstance(x_, ast.Return)] + [x_ for st_ in arms[side] for x_ in ast.walk(st_) if isinstance(x_, ast.Return)]:
+                    if isinstance(r_.value, ast.Tuple) and len(r_.value.elts) == 2:
+                        v = _Side().visit(_copy2.deepcopy(r_.value.elts[0]))
+                        if isinstance(v, ast.BinOp) and isinstance(v.op, ast.MatMult):
+                            inv_of_p = lambda e: isinstance(e, ast.Call) and (dotted(e.func) or "").split(".")[-1] == "inv" and e.args \
+                                and isinstance(e.args[0], ast.Name) and e.args[0].id == p_name  # noqa: E731
+                            is_m_ = lambda e: isinstance(e, ast.Name) and e.id == mname  # noqa: E731
+                            if is_m_(v.left) and inv_of_p(v.right):
+                                u_ok = side == "right"
+                            elif inv_of_p(v.left) and is_m_(v.right):
+                                u_ok = side == "left"
             key = f"{f.qualname}|side={side}"
             if squared is None or u_ok is None:
                 ctx.error(f"C09e: cannot read the {side} arm of {f.qualname} (undecided)")
